@@ -4,6 +4,7 @@ spec/TraceFrontend.tla."""
 import hashlib
 import http.client
 import json
+import re
 import os
 import shutil
 import socket
@@ -31,6 +32,9 @@ def table_event(key, resp, with_err=False):
     of input and configuration too); across front-ends only the verdict is comparable"""
     st = "ok" if resp["status"] == "ok" else "fail"
     body = resp.get("out") if st == "ok" else None
+    if body and "svgdx-" in body:
+        # the randomised id of local styles is the one permitted variation
+        body = re.sub(r"svgdx-[0-9a-f]{8}", "svgdx-XXXXXXXX", body)
     hh = h(body) if st == "ok" else (h(resp.get("err") or "") if with_err else "-")
     return {"e": "table", "key": key, "status": st, "hash": hh, "empty": bool(st == "ok" and body == "")}
 
